@@ -1,12 +1,16 @@
 import N2k.Lemmas.HeartbeatShift
 import N2k.Lemmas.HeartbeatRoll
 import N2k.Lemmas.Time32DevList
+import N2k.Lemmas.Time32Rx
+import N2k.Lemmas.Time32PendingInfo
+import N2k.Lemmas.Time32TP
 /-!
 # C13 — Timed behaviour is independent of the clock origin, including the 32-bit wrap
 
 Primitives: `Basic/Time.lean` (`N2kIsTimeBefore`, `N2kHasElapsed`, `tN2kScheduler` in the 32-bit and the 64-bit
 flavour). Machines: the send path / open machine / address-claim timer of `Model/Send.lean` and the heartbeat machine of
-`Model/Heartbeat.lean`, and the request pacing of the device list (`Model/DeviceList.lean`). The shift of a state (`St.shift`, `HSt.shift`) moves the clock and every stored deadline by `k`
+`Model/Heartbeat.lean`, the reassembly slots (`Model/Rx.lean`), the ISO-TP node (`Model/TP.lean`), the pending-information
+timers (`Model/IsoRequest.lean`) and the request pacing of the device list (`Model/DeviceList.lean`). The shift of a state (`St.shift`, `HSt.shift`) moves the clock and every stored deadline by `k`
 (modulo 2^32 on the 32-bit build; "disabled" stays "disabled").
 
 The scheduler's documented 1 ms slack: a 32-bit `FromNow(d)` whose result would be the all-ones "disabled" value is
@@ -84,11 +88,16 @@ times. Hypotheses: the initial stored deadlines do not collide with the sentinel
 step the clock is not at one of the (three per 49.7 days) instants where a 32-bit `FromNow` lands on the sentinel, and
 the shifted 64-bit clock stays clear of 2^64 (`ClocksOk`).
 
-`_partial`: covers the node machines modelled here (send path, open machine, address-claim timer, heartbeat and
-synchronised scheduler); the device list's request pacing has its own unconditional theorem
-`C13_shift_invariance_devlist`. Not covered by a shift theorem: reassembly-slot ageing, ISO-TP and pending-information
-timers (other properties' models) and the rest of `tN2kDeviceList::HandleMsg`; the structural obligation `time_sites`
-pins every clock read of the library to the primitives of `C13_primitives_elapsed_only`. -/
+`_partial`: this run-level theorem covers the node machines composed in `Model/Heartbeat.lean` (send path, open
+machine, address-claim timer, heartbeat and synchronised scheduler). The other timed machines named by the property
+have their own step-level theorems over their own models: `C13_shift_invariance_rx` (reassembly-slot ageing; run level,
+unconditional), `C13_shift_invariance_tp` (ISO-TP sender/receiver timers, BAM pacing, with the pending information of the
+same node), `C13_shift_invariance_pending_info` (pending product/configuration information retries) and
+`C13_shift_invariance_devlist` (device-list request pacing, unconditional). What remains: the machines are separate
+models, not one composed node state, so there is no single run theorem over all of them (their composition is exercised
+on the real node by the harness probes); `IsoRequest.pollClaim` (address-claim contention, C03's model) and the rest of
+`tN2kDeviceList::HandleMsg` have no shift theorem; the structural obligation `time_sites` pins every clock read of the
+library to the primitives of `C13_primitives_elapsed_only`. -/
 theorem C13_shift_invariance_partial (k : Nat) (h : HSt) (ops : List Op) (ho : h.ShiftOk k) (hc : ClocksOk k h ops) :
     run (h.shift k) ops = ((run h ops).1.shift k, (run h ops).2) ∧
     (run (h.shift k) ops).1.st.drv = (run h ops).1.st.drv ∧
@@ -96,6 +105,68 @@ theorem C13_shift_invariance_partial (k : Nat) (h : HSt) (ops : List Op) (ho : h
     (run h ops).1.ShiftOk k := by
   obtain ⟨e, o⟩ := run_shift ops h ho hc
   refine ⟨e, ?_, ?_, o⟩ <;> rw [e] <;> rfl
+
+/-- **Shift invariance of the reassembly slots** (`Model/Rx.lean`: `FindFreeCANMsgIndex` with its ageing scan —
+a slot is recycled when the oldest unfinished message is older than 100 ms —, `SetN2kCANBufMsg`, the slot take-over by
+TP.CM RTS/BAM, delivery and `FreeMessage`), for EVERY history of (arrival time, frame) pairs, every configuration, every
+slot state and every shift `k`, WITHOUT any hypothesis: the stamps are 32-bit and are compared with `N2kIsTimeBefore` /
+`N2kHasElapsed` only, so not even a bound on the age of a slot is needed for the commutation (an age above 2^31 ms changes
+what both runs do, in the same way). `Rx.St.shift` moves the stamp of every slot in use by `k` modulo 2^32 (a free slot
+keeps the 0 written by `FreeMessage`, which is never read: the scan runs only when no slot is free). The run with every
+arrival time moved by `k` delivers the same messages at the same frames and ends in the shifted state. -/
+theorem C13_shift_invariance_rx (k : Nat) (c : Rx.Cfg) (st : Rx.St) (evs : List (Nat × Rx.Frame)) :
+    Rx.run c (st.shift k) (Rx.shiftEvs k evs) = (Rx.run c st evs).shift k ∧
+    Rx.outputs c (st.shift k) (Rx.shiftEvs k evs) = Rx.outputs c st evs ∧
+    Rx.delivered c (st.shift k) (Rx.shiftEvs k evs) = Rx.delivered c st evs ∧
+    (∀ now f, Rx.rx c (st.shift k) (now + k) f = ((Rx.rx c st now f).1.shift k, (Rx.rx c st now f).2)) := by
+  obtain ⟨h1, h2⟩ := Rx.run_shift k c evs st
+  exact ⟨h1, h2, by unfold Rx.delivered; rw [h2], fun now f => Rx.rx_shift k c st now f⟩
+
+/-- **Shift invariance of the ISO-TP node** (`Model/TP.lean`: sender — RTS/BAM announce, the 50 ms wait for the first
+CTS / BAM packet pacing, the 100 ms wait after a CTS, EndOfMsgAck / Abort —, receiver — RTS → CTS / EndOfMsgAck, BAM,
+packet-number check, the receive slots with their ageing —, the pending product / configuration information of the same
+node, the address-claim timer; steps `poll` = one `ParseMessages` with up to 20 received frames, `sendMsgTP` = `SendMsg`
+including the TP branch, `moveTo` = commanded address), both timer builds, every shift `k`, every node state and every
+frame content: the step from the shifted state gives the shifted state, the same handler calls (`out`), the same frames at
+the driver and in the queue, the same return value. Hypotheses = the sentinel slack only: `TPClockOk` (at this clock no
+`FromNow` with one of the delays the step can arm — 50, 100, 250 ms and `187 + 8a`, `187 + 10a` for the node's own
+addresses `a` — lands on the all-ones value in either run; 64-bit: shifted clock + delay below 2^64-1) and `ShiftOk` (no
+stored timer does). The receive-slot stamps need no hypothesis at all. `ShiftOk` is re-established and the addresses
+are kept, so the statement iterates. -/
+theorem C13_shift_invariance_tp (k : Nat) (n : TP.Node) (hc : TP.TPClockOk k n) (ho : n.ShiftOk k) :
+    (TP.poll (n.shift k) = (TP.poll n).shift k ∧ (TP.poll n).ShiftOk k ∧
+      (TP.poll (n.shift k)).out = (TP.poll n).out ∧ (TP.poll (n.shift k)).s.drv = (TP.poll n).s.drv ∧
+      (TP.poll (n.shift k)).s.ring = (TP.poll n).s.ring) ∧
+    (∀ m dev, TP.sendMsgTP (n.shift k) m dev = ((TP.sendMsgTP n m dev).1.shift k, (TP.sendMsgTP n m dev).2) ∧
+      (TP.sendMsgTP n m dev).1.ShiftOk k) ∧
+    (∀ d a, TP.moveTo (n.shift k) d a = (TP.moveTo n d a).shift k ∧ (TP.moveTo n d a).ShiftOk k) := by
+  obtain ⟨p1, p2, _, _⟩ := TP.poll_shift hc ho
+  obtain ⟨q1, q2, q3⟩ := TP.poll_observable hc ho
+  refine ⟨⟨p1, p2, q1, q2, q3⟩, fun m dev => ?_, fun d a => ?_⟩
+  · obtain ⟨s1, s2, _, _⟩ := TP.sendMsgTP_shift m dev hc ho
+    exact ⟨s1, s2⟩
+  · obtain ⟨m1, m2, _, _⟩ := TP.moveTo_shift d a hc.a250 ho
+    exact ⟨m1, m2⟩
+
+/-- **Shift invariance of the pending-information timers** (`Model/IsoRequest.lean`: answers to ISO requests for
+product / configuration information, `SetPending…Information` after a failed `SendMsg` — retry after `187 + 8·address` /
+`187 + 10·address` ms —, `SendPendingInformation`, and a whole `ParseMessages` poll with at most one received ISO
+request), both timer builds, every shift `k`, every request, every application handler: the poll from the shifted state
+hands the SAME messages to `SendMsg` and yields the shifted state. Hypotheses = the sentinel slack only
+(`PendClockOk`: at this clock no `FromNow` with one of the delays the step can arm — the library's 200/250/1000 ms and
+`187 + 8a`, `187 + 10a` for the node's own addresses `a` — lands on the all-ones value in either run; 64-bit build: the
+shifted clock plus the delay stays below 2^64-1) and `ShiftOk` (no stored deadline does). Both are re-established
+(`Kept`), so the statement iterates over polls; `IsoRequest.shift_advance` moves the clock between polls. -/
+theorem C13_shift_invariance_pending_info (k : Nat) (n : IsoRequest.Node) (rq : Option Send.Msg)
+    (h : Option IsoRequest.Handler) (hc : IsoRequest.PendClockOk k n) (ho : n.ShiftOk k) :
+    IsoRequest.pollRq (n.shift k) rq h = ((IsoRequest.pollRq n rq h).1.shift k, (IsoRequest.pollRq n rq h).2) ∧
+    (IsoRequest.pollRq n rq h).1.ShiftOk k ∧ IsoRequest.Kept k n (IsoRequest.pollRq n rq h).1 ∧
+    (IsoRequest.sendPendingInformation (n.shift k) =
+      ((IsoRequest.sendPendingInformation n).1.shift k, (IsoRequest.sendPendingInformation n).2)) ∧
+    (∀ m, IsoRequest.handleReceived (n.shift k) m h =
+      ((IsoRequest.handleReceived n m h).1.shift k, (IsoRequest.handleReceived n m h).2)) := by
+  obtain ⟨e, o, _, _, kp⟩ := IsoRequest.pollRq_shift rq h hc ho
+  exact ⟨e, o, kp, (IsoRequest.sendPendingInformation_shift hc ho).1, fun m => (IsoRequest.handleReceived_shift m h hc ho).1⟩
 
 /-- one operation (the heartbeat step included) commutes with the shift -/
 theorem C13_shift_invariance_step (k : Nat) (op : Op) (h : HSt) (hw : op.Wf) (hc : HClockOk k h) (ho : h.ShiftOk k) :
@@ -161,6 +232,31 @@ example : (exampleNode .t32 (M32 - 1000)).ShiftOk 2147483648 ∧
   · refine ⟨⟨by decide, by decide⟩, trivial, ⟨by decide, by decide⟩, trivial, ⟨by decide, by decide⟩, trivial,
       ⟨by decide, by decide⟩, trivial, ⟨by decide, by decide⟩, trivial, trivial⟩
 
+def exampleTpNode (f : Flavor) (now : Nat) : TP.Node :=
+  { s := { exampleSt f now with openState := 3 }, tp := fun _ => TP.TpDev.init f, slots := [{}, {}], onlyKnown := false,
+    rxq := [], out := [] }
+
+/-- ISO-TP, 32-bit build: a node 40 ms before the wrap (a transfer started now has its 50 ms timer expire after the wrap),
+shifted by 2^31, satisfies the hypotheses of `C13_shift_invariance_tp` -/
+example : TP.TPClockOk 2147483648 (exampleTpNode .t32 (M32 - 40)) ∧ (exampleTpNode .t32 (M32 - 40)).ShiftOk 2147483648 ∧
+    TP.TPClockOk (2 ^ 40) (exampleTpNode .t64 (M32 - 40)) := by
+  refine ⟨⟨by decide, by decide, by decide, fun i => ?_, fun i => ?_⟩, ⟨⟨by decide, ?_⟩, fun i => Or.inl rfl, ?_⟩,
+    ⟨by decide, by decide, by decide, fun i => ?_, fun i => ?_⟩⟩
+  · cases i with
+    | zero => decide
+    | succ j => show ArmOk .t32 _ _ (187 + 0 * 8); decide
+  · cases i with
+    | zero => decide
+    | succ j => show ArmOk .t32 _ _ (187 + 0 * 10); decide
+  · intro d hd; simp [exampleTpNode, exampleSt] at hd; subst hd; exact Or.inl rfl
+  · intro i t ht; simp [exampleTpNode] at ht
+  · cases i with
+    | zero => decide
+    | succ j => show ArmOk .t64 _ _ (187 + 0 * 8); decide
+  · cases i with
+    | zero => decide
+    | succ j => show ArmOk .t64 _ _ (187 + 0 * 10); decide
+
 /-- device list, origin in the upper half of the 32-bit range: an entry created at clock 1000 that has never been asked
 is ready for its first product-information request exactly 1000 ms later, and so is the same entry in the run whose
 clock is 2^31+5000 ms ahead (`Device.shift` leaves the never-used stamp at 0); one millisecond earlier neither is -/
@@ -174,6 +270,23 @@ example :
     DeviceList.ready { e0 with now := 1999 } .prod d = false ∧
     DeviceList.ready (DeviceList.Env.shift k { e0 with now := 1999 }) .prod (d.shift k) = false := by
   refine ⟨by decide, by decide, by decide, by decide, by decide, by decide⟩
+
+/-- reassembly slots, the 32-bit counter wraps inside the history: two slots, senders 40 and 41 start a fast packet
+50 ms and 30 ms before the wrap and stall; sender 42 arrives 80 ms after the wrap, i.e. 130 ms after sender 40, whose
+slot is recycled (it is the oldest; the stamp comparison and the 100 ms test both straddle the wrap). The same history
+started at clock 1000 (shift back by 2^32 - 1050) recycles the same slot, by `C13_shift_invariance_rx`. -/
+example :
+    let fr (src : Nat) : Rx.Frame := ⟨3, 129029, src, 255, 8, [0x20, 43, 1, 2, 3, 4, 5, 6]⟩
+    let evs : List (Nat × Rx.Frame) := [(4294967246, fr 40), (4294967266, fr 41), (4294967376, fr 42)]
+    ((Rx.run {} (Rx.init 2) evs).slot 0).src = 42 ∧ ((Rx.run {} (Rx.init 2) evs).slot 1).src = 41 ∧
+    ((Rx.run {} (Rx.init 2) evs).slot 0).msgTime = 80 := by
+  decide
+
+/-- pending information: the hypotheses of `C13_shift_invariance_pending_info` are satisfiable on both builds with a
+product-information retry armed 1000 ms before a clock value that the shift carries across the 32-bit wrap -/
+example : IsoRequest.PendClockOk 1000 (IsoRequest.exNode .t32) ∧ (IsoRequest.exNode .t32).ShiftOk 1000 ∧
+    IsoRequest.PendClockOk 1000 (IsoRequest.exNode .t64) ∧ (IsoRequest.exNode .t64).ShiftOk 1000 := by
+  refine ⟨by decide, by decide, by decide, by decide⟩
 
 /-- the sampling hypothesis of the roll counter: start at 2^32-10, samples across the wrap -/
 example : Sampled 0 [4294967286, 4294967290, 4294967300, 5000000000] ∧
